@@ -234,7 +234,8 @@ def check_insertion(chk, case, op, uid, t0, t1, exc, labels):
             break
         got = [inner_plain(e) for e in elements_of(t1, kind, newlab)]
         old = [inner_plain(e) for e in elements_of(t0, kind, newlab)]
-        if sorted(got) != sorted([exp] + old):
+        _k = lambda v: (v is None, v or "")          # (None = no text node holds the offset: nothing can be wrapped)
+        if sorted(got, key=_k) != sorted([exp] + old, key=_k):
             chk.fail({**case, "clause": "wraps-the-node-slice", "expected": exp, "got": got}, f"{o}: the inserted element does not wrap the designated characters of the text node")
             return False
         if length > 0 and not old and all_chars(t0)[off : off + length] != exp:
